@@ -571,6 +571,20 @@ func c14ReadersVsInserter(r *simrt.Run, w *nomsim.World, wl *nomsim.Workload) {
 	}
 	var viol []string
 	report := func(clause, disc, msg string) { viol = append(viol, clause+"\x00"+disc+"\x00"+msg) }
+	// momentum event listeners: two stay for the whole run, two leave while momentums are being announced
+	mk := func(name string) *c14Listener {
+		l := &c14Listener{name: name, touch: func() { f.Chain.GetFrontierMomentumStore() }}
+		f.Chain.Register(l)
+		return l
+	}
+	tempA, stay1, tempB, stay2 := mk("tempA"), mk("stay1"), mk("tempB"), mk("stay2")
+	if t.Bool() {
+		s.Go("unsubscriber", func() {
+			f.Chain.UnRegister(tempA)
+			f.Chain.UnRegister(tempB)
+		})
+		r.Probe("listeners-leave-during-announcements")
+	}
 	s.Go("inserter", func() {
 		for _, it := range items {
 			if it.mom != nil {
@@ -661,6 +675,32 @@ func c14ReadersVsInserter(r *simrt.Run, w *nomsim.World, wl *nomsim.Workload) {
 	for _, st := range s.Trace {
 		r.Logf("sched %s", st)
 	}
+	// every listener that stayed heard of every inserted momentum exactly once, in order; one that left
+	// heard a prefix
+	for _, l := range []*c14Listener{tempA, stay1, tempB, stay2} {
+		f.Chain.UnRegister(l)
+	}
+	var inserted []uint64
+	for _, it := range items {
+		if it.mom != nil && it.mom.Momentum.Height <= f.Height() {
+			inserted = append(inserted, it.mom.Momentum.Height)
+		}
+	}
+	for _, l := range []*c14Listener{stay1, stay2} {
+		if fmt.Sprint(l.inserted) != fmt.Sprint(inserted) || len(l.deleted) != 0 {
+			r.Fail("listener-missed-or-repeated-event", "stayed", "listener %s heard insertions %v and deletions %v; the node inserted %v (schedule of %d steps)", l.name, l.inserted, l.deleted, inserted, s.Steps)
+		}
+	}
+	for _, l := range []*c14Listener{tempA, tempB} {
+		ok := len(l.inserted) <= len(inserted)
+		for i := 0; ok && i < len(l.inserted); i++ {
+			ok = l.inserted[i] == inserted[i]
+		}
+		if !ok {
+			r.Fail("listener-missed-or-repeated-event", "left", "listener %s, which left, heard %v; the node inserted %v", l.name, l.inserted, inserted)
+		}
+	}
+	r.Probe("listener-histories-checked")
 	// afterwards the node equals the producer
 	if f.Height() == p.Height() {
 		compareNodes(r, "same-momentums-different-state", p, f, nil)
@@ -849,6 +889,23 @@ func c14ReadersVsReorg(r *simrt.Run, w *nomsim.World, wl *nomsim.Workload) {
 	r.Sample["schedule_steps"] = sc.Steps
 	r.Sample["readers"] = nReaders
 	r.Sample["depth"] = depth
+}
+
+// c14Listener records the momentum events it is told about; touch gives the scheduler a yield point
+// inside the callback (a read that takes a lock, as the real listeners do).
+type c14Listener struct {
+	name              string
+	inserted, deleted []uint64
+	touch             func()
+}
+
+func (l *c14Listener) InsertMomentum(d *nom.DetailedMomentum) {
+	l.touch()
+	l.inserted = append(l.inserted, d.Momentum.Height)
+}
+func (l *c14Listener) DeleteMomentum(d *nom.DetailedMomentum) {
+	l.touch()
+	l.deleted = append(l.deleted, d.Momentum.Height)
 }
 
 func sortAddrs(a []types.Address) {
